@@ -332,11 +332,12 @@ Definition apply_pop (o : pop) (f : frame) : option frame :=
   end.
 
 (* what the correspondence run observes of a frame:
-   (isinstance GeoDataFrame, _geometry, .geometry.name or None if it raises, columns) *)
-Definition obs := (bool * option string * option string * list string)%type.
+   (isinstance GeoDataFrame, _geometry, .geometry.name or None if it raises,
+    [(label, has a GeometryDtype)]) *)
+Definition obs := (bool * option string * option string * list (string * bool))%type.
 
 Definition observe (f : frame) : obs :=
-  (is_geo f, f_act f, geometry f, names (f_cols f)).
+  (is_geo f, f_act f, geometry f, map (fun c => (fst c, is_geom (snd c))) (f_cols f)).
 
 (* observations after each step; a raising step is None and ends the run *)
 Fixpoint run_pops (f : frame) (ops : list pop) : list (option obs) :=
@@ -405,12 +406,22 @@ Definition omap_pop (o : pop) (p : option frame) : option frame :=
 Definition make_meta (f : frame) : option frame := apply_pop OHead f.
 
 (* dask.py meta_nonempty_dataframe:
-   GeoDataFrame(meta_nonempty(pd.DataFrame(df.head(0))))  — the active column of df
-   is not consulted *)
+     result = GeoDataFrame(meta_nonempty(pd.DataFrame(df.head(0))))
+     if df._has_valid_geometry(): result.set_geometry(df._geometry, inplace=True) *)
 Definition meta_nonempty (f : frame) : option frame :=
   match f_cls f with
   | CPlain => Some f
-  | CGeo => gdf_init (plain_of (f_cols f)) None
+  | CGeo =>
+      match gdf_init (plain_of (f_cols f)) None with
+      | None => None
+      | Some r =>
+          if has_valid_geometry f then
+            match f_act f with
+            | Some g => set_geometry_inplace r g
+            | None => Some r
+            end
+          else Some r
+      end
   end.
 
 Fixpoint repeat_part (p : option frame) (n : nat) : list (option frame) :=
